@@ -1228,6 +1228,12 @@ int _vnadata_load_touchstone(vnadata_internal_t *vdip, FILE *fp,
     for (;;) {
 	switch (tps.tps_token) {
 	case T_KW_NUMBER_OF_PORTS:
+	    if (tps.tps_ports >= 0) {
+		_vnadata_error(vdip, VNAERR_SYNTAX, "%s (line %d) error: "
+			"[Number of Ports] may appear only once",
+		    tps.tps_filename, tps.tps_line);
+		goto out;
+	    }
 	    if (next_token(&tps, F_INT) == -1) {
 		goto out;
 	    }
@@ -1317,6 +1323,7 @@ int _vnadata_load_touchstone(vnadata_internal_t *vdip, FILE *fp,
 		    tps.tps_filename, tps.tps_line);
 		goto out;
 	    }
+	    free((void *)reference);
 	    if ((reference = calloc(tps.tps_ports,
 			    sizeof(double complex))) == NULL) {
 		_vnadata_error(vdip, VNAERR_SYSTEM,
